@@ -154,6 +154,13 @@ def fixedDegAccesses (P : Params) (small : Bool) (ubits : Nat) : List Access :=
 
 def fixedDegSafe (P : Params) (small : Bool) (ubits : Nat) : Bool := (fixedDegAccesses P small ubits).all Access.ok
 
+/-- the range guard of the repaired `fixed_degree_isogeny`, as coded:
+`length + 2 > f || f - length >= rows || bitsize(u) > length` ⇒ return 0 -/
+def fixedDegGuardPasses (P : Params) (small : Bool) (ubits : Nat) : Bool :=
+  !(decide ((fixedDegBook P small ubits).length + 2 > (P.f : Int)) ||
+    decide ((P.f : Int) - (fixedDegBook P small ubits).length ≥ (P.rows : Int)) ||
+    decide ((ubits : Int) > (fixedDegBook P small ubits).length))
+
 /-- `dim2id2iso_ideal_to_isogeny_clapotis`: `exp = f - exp_gcd`, row `f - exp + 2` -/
 def clapotisRow (P : Params) (expGcd : Nat) : Int := (P.f : Int) - ((P.f : Int) - expGcd) + 2
 def clapotisSafe (P : Params) (expGcd : Nat) : Bool :=
@@ -179,16 +186,23 @@ structure Shape where
   hdCommit : Bool
   hdKeygen : Bool
   exactValuation : Bool -- the valuations are computed on the big integer (not through `(int) ibz_get`)
+  fixedDegGuard : Bool  -- dim2id2iso.c fixed_degree_isogeny: range guard on `length` before any table access
 deriving Repr, DecidableEq
 
 def Shape.allChecked : Shape :=
-  ⟨true, true, true, true, true, true, true, true, true, true, true, true, true, true, true, true⟩
+  ⟨true, true, true, true, true, true, true, true, true, true, true, true, true, true, true, true, true⟩
 
 inductive Outcome where
   | ok                    -- returns 1 / keys produced, every value used was computed
   | fail                  -- explicit failure code (return 0)
   | bad (site : String)   -- a failed step's unset output is used, or a table index is out of range
 deriving Repr, DecidableEq
+
+/-- one call `fixed_degree_isogeny(…, u, …, small)` with `bitsize(u) = ubits`; `riFail`: represent_integer_non_diag fails -/
+def flowFixedDeg (P : Params) (S : Shape) (small : Bool) (ubits : Nat) (riFail : Bool) : Outcome :=
+  if S.fixedDegGuard && !(fixedDegGuardPasses P small ubits) then .fail else
+  if !(fixedDegSafe P small ubits) then .bad "fixed_degree_isogeny: length without strategy row / negative doubling count / u >= 2^length" else
+  if riFail then .fail else .ok
 
 /-- outcome of one ideal → isogeny translation (`dim2id2iso_arbitrary_isogeny_evaluation`) -/
 structure ClapTape where
